@@ -154,7 +154,16 @@ def parse_groups(cmd):
 
 def run(text, timeout=30, args=()):
     """Returns dict(rc, out, err, seg={k: text printed by query k or None when its end marker never came})."""
-    rc, out, err = vlib.run_opensmt(text, args=args, timeout=timeout)
+    for attempt in range(6):
+        try:
+            rc, out, err = vlib.run_opensmt(text, args=args, timeout=timeout)
+            break
+        except OSError:
+            # the binary is being relinked by a concurrent build of the same tree: wait for it (bin/check built it before run())
+            if attempt == 5:
+                raise
+            import time
+            time.sleep(5)
     seg, cur, buf = {}, None, []
     started = set()
     for line in out.split("\n"):
@@ -325,7 +334,9 @@ class Judge:
         key = (logic, tuple(decls), tuple(sx_str(f) for f in forms))
         if key not in self._z3cache:
             lg = "QF_UF" if logic == "QF_BOOL" else logic
-            a, _ = sc.ref_answer("z3", lg, decls, forms, timeout=5)
+            a, _ = sc.ref_answer("z3", lg, decls, forms, timeout=30)
+            if a == "unknown":      # a loaded machine: ask once more before giving up on the label
+                a, _ = sc.ref_answer("z3", lg, decls, forms, timeout=60)
             self._z3cache[key] = a == "unsat"
         return self._z3cache[key]
 
